@@ -20,7 +20,7 @@ EXPLANATION = (
     "index is in bounds. R7: unknown trap vectors reach exit(0xEE) without a state write; opcode 0xD is gated (C18.R3). "
     "R8: condition codes N/Z/P come from the signed comparison with zero and share their bit values with the encoder's BR mask."
     ' R1 reads the opcode dispatch as a 16-entry table or as a 16-arm match. R8 is decided on all 65,536 result words, and additionally requires that below execute only set_flags writes the condition code and that every CC-setting handler hands set_flags the word it stores in DR.'
-    " R5 judges the 0xD handler with its two stack helpers written in; a register named by an instruction field may alias one named by a constant (reads of R7 after a store to a field-named register are reported, two constant-named accesses are the handler's own bookkeeping)."
+    " R5 judges the 0xD handler with its two stack helpers written in; a register named by an instruction field may alias one named by a constant (reads of R7 after a store to a field-named register are reported, two constant-named accesses are the handler's own bookkeeping). R5 also orders stores: the register an instruction field names holds the result and is stored last, so a store to a constant-named register (stack pointer, link register) after it is reported (POP R7 must leave the popped word in R7)."
 )
 NOT_DECIDED = ("the numerical result of each instruction on each state (the sign-extension helper's arithmetic is trusted through "
                "the repository's own width-exhaustive unit test; R2 checks its call-site widths); RTI is outside the claim")
@@ -140,7 +140,7 @@ def run(ctx):
         if helpers5:
             f = kit.inlined_view(prog, f, helpers5)
         written_refs = {s["p"]["l"] for b, i2, s in f.assigns() if s["p"].get("pr") == ["*"]}
-        writes, reads = [], []
+        writes, reads, stores5 = [], [], []
         for b, t, c in f.calls():
             if c is None:
                 continue
@@ -150,6 +150,7 @@ def run(ctx):
                     if s["p"].get("pr") == ["*"] and s["p"]["l"] == t["dest"]["l"]:
                         e = f.expr(t["args"][1], 8)
                         writes.append((b2, expr_str(e), t, e[0] == "const"))
+                        stores5.append((b2, i2, expr_str(e), t, e[0] == "const"))
             elif c.endswith("RunState::push_val") or c.endswith("RunState::pop_val"):
                 writes.append((b, "R7 (stack pointer)", t, True))
             elif c.endswith("RunState::reg") or (c.endswith("RunState::reg_mut") and t["dest"]["l"] not in written_refs):
@@ -165,6 +166,20 @@ def run(ctx):
                 # constants are the handler's own bookkeeping of one register (R7 = R7 - 1, then mem[R7])
                 if rb in after and not (wconst and rconst):
                     bad.append((wdesc, rdesc, rt))
+        # the register an instruction field names is the instruction's result and is written last: a later store to a register the handler
+        # names by a constant (the stack pointer, the link register) would overwrite the result when the field names that register (POP R7)
+        bad_ww = []
+        for wb, wi, wdesc, wt, wconst in stores5:
+            if wconst:
+                continue
+            for b2, i2, d2, t2, c2 in stores5:
+                if c2 and ((b2 == wb and i2 > wi) or (b2 != wb and b2 in f.reachable(wb) - {wb})):
+                    bad_ww.append((wdesc, d2, t2))
+        ctx.oblig(not bad_ww)
+        for wdesc, d2, t2 in bad_ww:
+            ctx.violation("write-after-result|op=%X|%s" % (i, d2), sp_file_line(t2.get("sp")),
+                          "handler in slot 0x%X (`%s`) writes register `%s` after it has written its result into register `%s`, which an "
+                          "instruction field names: when the field names that same register (e.g. POP R7) the result is overwritten" % (i, short(h), d2, wdesc))
         ctx.oblig(not bad)
         for wdesc, rdesc, rt in bad:
             ctx.violation("read-after-write|op=%X|%s" % (i, rdesc), sp_file_line(rt.get("sp")),
